@@ -6,4 +6,4 @@ def run(chk):
     # verdict codes per actor; 3x = priority rules (C03)
     return run_loop_check(chk, lambda n, links, t: f"codes {n} {t}", "ports",
                           "a lower-priority item started / progressed after kill() or stop() returned",
-                          accept=lambda o: isinstance(o, list) and not any(30 <= c < 40 for c in o))
+                          accept=lambda o: isinstance(o, list) and not any(30 <= c < 40 or c == 17 for c in o))
